@@ -335,7 +335,9 @@ def _realmatrix(M):
     tests are made on real floating point values.
     """
     M = np.asarray(M)
-    if M.dtype.kind in 'iub':
+    if M.dtype.kind in 'iub' or (M.dtype.kind == 'f' and M.dtype.itemsize < 8):
+        # (a half- or single-precision matrix is tested in double precision: the
+        # residual computed in its own precision hides a defect of 1e-4)
         return M.astype(np.float64)
     if M.dtype.kind == 'c':
         return M.real if np.all(M.imag == 0) else None
@@ -524,6 +526,8 @@ def vex(s, check=False):
     :seealso: :func:`skew`, :func:`vexa`
     :SymPy: supported
     """
+    if s.dtype.kind in 'iub':
+        s = s.astype(np.float64)  # the difference of two int8 elements wraps around
     if s.shape == (3, 3):
         if check and not isskew(s):
             raise ValueError("Argument is not skew symmetric")
